@@ -181,7 +181,7 @@ func (w *c06World) checkPublished(what string) {
 func TestC06Stateful(t *testing.T) {
 	theT = t
 	col := ev.New("C06", "stateful",
-		"rapid state machine over candidate changes (legacy+structured), subscribeForNewEpoch (4 probe subscribers, duplicates, Balance again, a contract without newEpoch, missing Alphabet witness; one world in three is Netmap alone, so that no subscriber of the repository re-checks the witness behind it), probe reject flags, and blocks of 1..3 newEpoch transactions with epochs cur-1/cur/cur+1/cur+k with and without Alphabet witness; per transaction: success iff Alphabet and e>cur and no subscriber rejects; full snapshot diff empty on refusal; publication of the pre-tick candidates in both formats, candidates unchanged, lastEpochBlock, one NewEpoch event, one ProbeEpoch per probe in subscription order, delivery counters +1, a due Balance lock released once; non-trivial = a successful tick with >=2 subscribers (>=1 probe) and a non-empty candidate set after at least one refused tick",
+		"rapid state machine over candidate changes (legacy+structured), subscribeForNewEpoch (4 probe subscribers, duplicates, Balance again, a contract without newEpoch, missing Alphabet witness; one world in three is Netmap alone, so that no subscriber of the repository re-checks the witness behind it), probe reject flags, and blocks of 1..3 newEpoch transactions with epochs cur-1/cur/cur+1/cur+k (k up to 2^24, epochs below 2^31, so that the epoch number passes the one-, two- and three-byte boundaries) with and without Alphabet witness; per transaction: success iff Alphabet and e>cur and no subscriber rejects; full snapshot diff empty on refusal; publication of the pre-tick candidates in both formats, candidates unchanged, lastEpochBlock, one NewEpoch event, one ProbeEpoch per probe in subscription order, delivery counters +1, a due Balance lock released once; non-trivial = a successful tick with >=2 subscribers (>=1 probe) and a non-empty candidate set after at least one refused tick",
 		"the expected publication is the candidate set observed immediately before the tick (metamorphic oracle; candidate semantics themselves are C07)")
 	runRapid(t, col, func(rt *rapid.T, h *ev.History) {
 		n := rapid.SampledFrom([]int{1, 1, 3}).Draw(rt, "n")
@@ -283,7 +283,10 @@ func TestC06Stateful(t *testing.T) {
 				k := rapid.IntRange(1, 3).Draw(rt, "txInBlock")
 				var txs []tickTx
 				for j := 0; j < k; j++ {
-					d := rapid.SampledFrom([]int{-1, 0, 1, 1, 1, 2, 5}).Draw(rt, "epochDelta")
+					d := rapid.SampledFrom([]int{-1, 0, 1, 1, 1, 1, 1, 2, 5, 5, 120, 250, 65530, 1 << 24}).Draw(rt, "epochDelta")
+					if w.cur+int64(d) >= 1<<31 {
+						d = 1 // (epoch numbers stay within 31 bits: the structured lists are keyed by four bytes)
+					}
 					withAlpha := rapid.IntRange(0, 6).Draw(rt, "noAlpha") != 0
 					e := w.cur + int64(d)
 					signers := alpha
